@@ -286,8 +286,9 @@ func TestC02_PoolMembership(t *testing.T) {
 			}
 		}
 
+		holdClock := false // adjusting mode: the next requests arrive while the clock stands still
 		request := func(viaHTTP bool, cookie string, mut int) {
-			if adjusting {
+			if adjusting && !holdClock {
 				clock.Advance(time.Second + time.Millisecond)
 			}
 			if !viaHTTP {
@@ -563,6 +564,51 @@ func TestC02_PoolMembership(t *testing.T) {
 				sort.Strings(got)
 				if strings.Join(got, ",") != strings.Join(m.positive(), ",") {
 					t.Fatalf("one rotation (%d selections) chose %v, positive-weight members are %v\nhistory: %s", sum/g, got, m.positive(), strings.Join(log, "; "))
+				}
+				if adjusting && !sticky {
+					// and one rotation of requests through the rebalancer itself while the clock stands
+					// still (no back-off interval ends, nobody changes the pool): every member is chosen
+					// as often as its weight in force says
+					weightsNow := func() string {
+						var ws []string
+						for _, e := range m.es {
+							u, _ := url.Parse(e.spell)
+							w, _ := serverWeight(u)
+							ws = append(ws, fmt.Sprint(w))
+						}
+						return strings.Join(ws, ",")
+					}
+					for k := 0; k < 8; k++ { // let the adjustments run their course (one per back-off interval)
+						was := weightsNow()
+						request(true, "", 0)
+						if weightsNow() == was {
+							break
+						}
+					}
+					holdClock = true
+					sum, g := 0, 0
+					cur := map[string]int{}
+					for _, e := range m.es {
+						u, _ := url.Parse(e.spell)
+						w, _ := serverWeight(u)
+						cur[key(u)] = w
+						sum += w
+						g = gcd(g, w)
+					}
+					if sum > 0 && sum/g <= 20000 {
+						counts := map[string]int{}
+						for j := 0; j < sum/g; j++ {
+							request(true, "", 0)
+							counts[seenKey]++
+						}
+						for k, w := range cur {
+							if counts[k] != w/g {
+								t.Fatalf("weights in force %v (gcd %d), clock standing still: one rotation of %d requests through the rebalancer chose %s %d times, want %d; all counts %v\nhistory: %s", cur, g, sum/g, k, counts[k], w/g, counts, strings.Join(log, "; "))
+							}
+						}
+						log = append(log, "standing-rotation")
+					}
+					holdClock = false
 				}
 			}
 			check(fmt.Sprintf("after step %d", i))
